@@ -1,16 +1,16 @@
 /-
-  C02 — largest remainder: whole quotas first, then the largest exact remainders; over-award policies;
+  C02 — largest remainder: whole quotas first, then the largest exact remainders; caps; over-award policies;
   textbook quota values.  Property theorems only (helper lemmas: VotelibProofs/Lemmas/QuotaDist.lean).
 
   Reading (DESIGN "### C02").  `q = quota(V, n) > 0`; `wholeQ q ae v = ⌊v / q⌋`, except `0` for a party exactly on
-  the quota when `accept_equal` is off; `wholeAward = max (wholeQ − prev) 0`.  The model is
-  `VL.QD.quotaDistribute` / `VL.QD.largestRemainder` (VotelibModel/QuotaDist.lean), which is what the driver runs.
-
-  The cap / overshoot branch of the code (proportional.py L236-257) is defective on the current tree (known
-  findings C02-a, C02-b, C02-d); the theorems about whole quotas, policies and remainders therefore carry the
-  decidable hypothesis `NoCapBinds` (no explicit cap and not the default cap `n_seats` binds on any party's whole
-  quotas), the cap theorems are `_partial`, and the failing shapes are proved as `_witness` theorems.
+  the quota when `accept_equal` is off; `capQ` holds the whole quotas at the party's cap (`max_seats`);
+  `wholeAward = max (capQ (wholeQ) − prev) 0`.  The model is `VL.QD.quotaDistribute` / `VL.QD.largestRemainder`
+  (VotelibModel/QuotaDist.lean), which is what the driver runs; it mirrors the code after the repairs 9571110
+  (caps) and 24bad1e (constant-quota error message).  All theorems hold for every well-formed request — there is
+  no cap-related side condition any more.  The defects the two repairs removed stay recorded as
+  `prefix_*_witness` theorems about the pre-repair model `VL.QDPre` (VotelibModel/QuotaDistPreFix.lean).
 -/
+import VotelibModel.QuotaDistPreFix
 import VotelibProofs.Lemmas.QuotaDist
 namespace VL.C02
 open VL VL.QD
@@ -88,78 +88,62 @@ theorem WF.prev_nonneg {votes : Votes} {prev : IMap} (h : WF votes prev) : ∀ c
   | none => exact le_refl _
   | some x => exact h.2.2.2 x (List.mem_of_find?_eq_some hf)
 
-/-- no cap binds on the whole quotas: every party's whole quotas are within its cap (`max_seats`, by default
-    the house size `n`, as the code has it at L236) or already covered by previous gains -/
-def NoCapBinds (q : Rat) (ae : Bool) (n : Nat) (prev maxS : IMap) (votes : Votes) : Prop :=
-  ∀ p ∈ votes, wholeQ q ae p.2 ≤ getI maxS p.1 n ∨ wholeQ q ae p.2 ≤ getI prev p.1 0
+/-- seats handed out so far, previous gains of all parties included (the code's `total_awarded`, L238) -/
+def totalAwarded (q : Rat) (ae : Bool) (prev maxS : IMap) (votes : Votes) : Int :=
+  sumK (wholeSel q ae prev maxS votes) + sumI prev
 
-instance (q : Rat) (ae : Bool) (n : Nat) (prev maxS : IMap) (votes : Votes) :
-    Decidable (NoCapBinds q ae n prev maxS votes) := by unfold NoCapBinds; infer_instance
-
-/-- seats handed out so far, previous gains of all parties included (the code's `total_awarded`, L258) -/
-def totalAwarded (q : Rat) (ae : Bool) (prev : IMap) (votes : Votes) : Int :=
-  sumK (wholeSel q ae prev votes) + sumI prev
-
-private theorem noBindCode_of {q : Rat} (hq : 0 < q) {ae : Bool} {n : Nat} {prev maxS : IMap} {votes : Votes}
-    (hv : ∀ p ∈ votes, 0 ≤ p.2) (h : NoCapBinds q ae n prev maxS votes) :
-    ∀ p ∈ votes, NoBindCode q ae (n : Int) prev maxS p := by
-  intro p hp hf hpos
-  rw [pyInt_eq_wholeQ hq (hv p hp) hf] at hpos ⊢
-  rcases h p hp with h1 | h2
-  · exact h1
-  · omega
-
-/-- **Whole quotas.**  When no cap binds, `QuotaDistributor.evaluate` is the over-award policy applied to
-    the dict of whole-quota awards `max (⌊v/q⌋ − prev) 0` (with the `accept_equal` edge), positive entries only,
-    in the order of `votes`. -/
+/-- **Whole quotas.**  `QuotaDistributor.evaluate` is the over-award policy applied to the dict of whole-quota
+    awards `max (min(⌊v/q⌋, cap) − prev) 0` (with the `accept_equal` edge), positive entries only, in the order
+    of `votes`. -/
 theorem qd_whole_quotas (cfg : Cfg) (votes : Votes) (n : Nat) (prev maxS : IMap) (hwf : WF votes prev)
-    (hq : 0 < cfg.quota (sumVals votes) n)
-    (hnb : NoCapBinds (cfg.quota (sumVals votes) n) cfg.acceptEqual n prev maxS votes) :
+    (hq : 0 < cfg.quota (sumVals votes) n) :
     quotaDistribute cfg votes n prev maxS =
-      applyPolicy cfg votes n prev (wholeSel (cfg.quota (sumVals votes) n) cfg.acceptEqual prev votes) := by
-  rw [quotaDistribute_noBind cfg votes n prev maxS (ne_of_gt hq)
-    (noBindCode_of hq hwf.votes_nonneg hnb) hwf.keys_nodup,
-    filterMap_awardOf_eq hq cfg.acceptEqual prev votes hwf.votes_nonneg hwf.prev_nonneg]
+      applyPolicy cfg votes n prev (wholeSel (cfg.quota (sumVals votes) n) cfg.acceptEqual prev maxS votes) := by
+  rw [quotaDistribute_eq cfg votes n prev maxS (ne_of_gt hq) hwf.keys_nodup,
+    filterMap_awardOf_eq hq cfg.acceptEqual prev maxS votes hwf.votes_nonneg hwf.prev_nonneg]
 
-/-- the value of the whole-quota dict at a party: `max (wholeQ − prev) 0` -/
-theorem wholeSel_get (q : Rat) (ae : Bool) (prev : IMap) (votes : Votes) (hnd : (votes.map (·.1)).Nodup)
+/-- the value of the whole-quota dict at a party: `max (capQ (wholeQ) − prev) 0`; without a cap on the party this
+    is `max (⌊v/q⌋ − prev) 0` -/
+theorem wholeSel_get (q : Rat) (ae : Bool) (prev maxS : IMap) (votes : Votes) (hnd : (votes.map (·.1)).Nodup)
     (p : Cand × Rat) (hp : p ∈ votes) :
-    getK (wholeSel q ae prev votes) (.cand p.1) 0 = max (wholeQ q ae p.2 - getI prev p.1 0) 0 :=
-  getK_wholeSel q ae prev votes hnd p hp
+    getK (wholeSel q ae prev maxS votes) (.cand p.1) 0 =
+        max (capQ maxS p.1 (wholeQ q ae p.2) - getI prev p.1 0) 0 ∧
+      (getCap maxS p.1 = none →
+        getK (wholeSel q ae prev maxS votes) (.cand p.1) 0 = max (wholeQ q ae p.2 - getI prev p.1 0) 0) := by
+  refine ⟨getK_wholeSel q ae prev maxS votes hnd p hp, ?_⟩
+  intro hn
+  rw [getK_wholeSel q ae prev maxS votes hnd p hp]
+  unfold wholeAward capQ
+  rw [hn]
 
 /-- no over-award: the whole quotas are returned as they are -/
 theorem qd_no_overaward (cfg : Cfg) (votes : Votes) (n : Nat) (prev maxS : IMap) (hwf : WF votes prev)
     (hq : 0 < cfg.quota (sumVals votes) n)
-    (hnb : NoCapBinds (cfg.quota (sumVals votes) n) cfg.acceptEqual n prev maxS votes)
-    (hle : totalAwarded (cfg.quota (sumVals votes) n) cfg.acceptEqual prev votes ≤ n) :
+    (hle : totalAwarded (cfg.quota (sumVals votes) n) cfg.acceptEqual prev maxS votes ≤ n) :
     quotaDistribute cfg votes n prev maxS =
-      .ok (wholeSel (cfg.quota (sumVals votes) n) cfg.acceptEqual prev votes) := by
-  rw [qd_whole_quotas cfg votes n prev maxS hwf hq hnb]
+      .ok (wholeSel (cfg.quota (sumVals votes) n) cfg.acceptEqual prev maxS votes) := by
+  rw [qd_whole_quotas cfg votes n prev maxS hwf hq]
   unfold applyPolicy
   simp only
   rw [if_neg (by unfold totalAwarded at hle; omega)]
 
-/-- policy `'error'`: `VotingSystemError` exactly when the whole quotas (with previous gains) exceed the house -/
+/-- policy `'error'`: `VotingSystemError` exactly when the whole quotas (with previous gains) exceed the house —
+    for every quota callable, also `quota.constant` (repair 24bad1e) -/
 theorem qd_policy_error (cfg : Cfg) (votes : Votes) (n : Nat) (prev maxS : IMap) (hwf : WF votes prev)
-    (hq : 0 < cfg.quota (sumVals votes) n)
-    (hnb : NoCapBinds (cfg.quota (sumVals votes) n) cfg.acceptEqual n prev maxS votes)
-    (hpol : cfg.onOver = .error) (hname : cfg.named = true)
-    (hgt : (n : Int) < totalAwarded (cfg.quota (sumVals votes) n) cfg.acceptEqual prev votes) :
+    (hq : 0 < cfg.quota (sumVals votes) n) (hpol : cfg.onOver = .error)
+    (hgt : (n : Int) < totalAwarded (cfg.quota (sumVals votes) n) cfg.acceptEqual prev maxS votes) :
     quotaDistribute cfg votes n prev maxS = .error .votingSystemError := by
-  rw [qd_whole_quotas cfg votes n prev maxS hwf hq hnb]
+  rw [qd_whole_quotas cfg votes n prev maxS hwf hq]
   unfold applyPolicy
   simp only
   rw [if_pos (by unfold totalAwarded at hgt; omega), hpol]
-  simp [hname]
 
 /-- policy `'ignore'`: the surplus is kept, the whole quotas are returned unchanged -/
 theorem qd_policy_ignore (cfg : Cfg) (votes : Votes) (n : Nat) (prev maxS : IMap) (hwf : WF votes prev)
-    (hq : 0 < cfg.quota (sumVals votes) n)
-    (hnb : NoCapBinds (cfg.quota (sumVals votes) n) cfg.acceptEqual n prev maxS votes)
-    (hpol : cfg.onOver = .ignore) :
+    (hq : 0 < cfg.quota (sumVals votes) n) (hpol : cfg.onOver = .ignore) :
     quotaDistribute cfg votes n prev maxS =
-      .ok (wholeSel (cfg.quota (sumVals votes) n) cfg.acceptEqual prev votes) := by
-  rw [qd_whole_quotas cfg votes n prev maxS hwf hq hnb]
+      .ok (wholeSel (cfg.quota (sumVals votes) n) cfg.acceptEqual prev maxS votes) := by
+  rw [qd_whole_quotas cfg votes n prev maxS hwf hq]
   unfold applyPolicy
   simp only
   split
@@ -169,21 +153,55 @@ theorem qd_policy_ignore (cfg : Cfg) (votes : Votes) (n : Nat) (prev maxS : IMap
 /-- policy `'subtract'`: whenever it returns, exactly the surplus has been withdrawn — the total with previous
     gains is the house size -/
 theorem qd_policy_subtract_total (cfg : Cfg) (votes : Votes) (n : Nat) (prev maxS : IMap) (hwf : WF votes prev)
-    (hq : 0 < cfg.quota (sumVals votes) n)
-    (hnb : NoCapBinds (cfg.quota (sumVals votes) n) cfg.acceptEqual n prev maxS votes)
-    (hpol : cfg.onOver = .subtract)
-    (hgt : (n : Int) < totalAwarded (cfg.quota (sumVals votes) n) cfg.acceptEqual prev votes)
+    (hq : 0 < cfg.quota (sumVals votes) n) (hpol : cfg.onOver = .subtract)
+    (hgt : (n : Int) < totalAwarded (cfg.quota (sumVals votes) n) cfg.acceptEqual prev maxS votes)
     (r : Sel) (hr : quotaDistribute cfg votes n prev maxS = .ok r) :
     sumK r + sumI prev = n := by
-  rw [qd_whole_quotas cfg votes n prev maxS hwf hq hnb] at hr
+  rw [qd_whole_quotas cfg votes n prev maxS hwf hq] at hr
   unfold applyPolicy at hr
   simp only at hr
   rw [if_pos (by unfold totalAwarded at hgt; omega), hpol] at hr
   simp only [subtractOveraward] at hr
-  obtain ⟨h1, _⟩ := subtractLoop_sum votes _ prev _ _ r (KNodup_wholeSel _ _ _ _ hwf.keys_nodup) hr
+  obtain ⟨h1, _⟩ := subtractLoop_sum votes _ prev _ _ r (KNodup_wholeSel _ _ _ _ _ hwf.keys_nodup) hr
   unfold totalAwarded at hgt
   rw [h1]
   omega
+
+/-- **The configured policy is honoured exactly, for every well-formed request** (whatever the caps, and also when
+    a single party's whole quotas exceed the house): no over-award ⇒ the whole quotas; over-award ⇒
+    `VotingSystemError` / the whole quotas unchanged / a result that totals `n`. -/
+theorem qd_policy_honoured (cfg : Cfg) (votes : Votes) (n : Nat) (prev maxS : IMap) (hwf : WF votes prev)
+    (hq : 0 < cfg.quota (sumVals votes) n) :
+    let W := wholeSel (cfg.quota (sumVals votes) n) cfg.acceptEqual prev maxS votes
+    let T := totalAwarded (cfg.quota (sumVals votes) n) cfg.acceptEqual prev maxS votes
+    (T ≤ n → quotaDistribute cfg votes n prev maxS = .ok W) ∧
+    ((n : Int) < T → cfg.onOver = .error → quotaDistribute cfg votes n prev maxS = .error .votingSystemError) ∧
+    ((n : Int) < T → cfg.onOver = .ignore → quotaDistribute cfg votes n prev maxS = .ok W) ∧
+    ((n : Int) < T → cfg.onOver = .subtract →
+      ∀ r, quotaDistribute cfg votes n prev maxS = .ok r → sumK r + sumI prev = n) :=
+  ⟨qd_no_overaward cfg votes n prev maxS hwf hq,
+   fun hgt hpol => qd_policy_error cfg votes n prev maxS hwf hq hpol hgt,
+   fun _ hpol => qd_policy_ignore cfg votes n prev maxS hwf hq hpol,
+   fun hgt hpol r hr => qd_policy_subtract_total cfg votes n prev maxS hwf hq hpol hgt r hr⟩
+
+/-- with a positive quota the only exceptions that can escape `QuotaDistributor.evaluate` are the declared
+    `VotingSystemError` and, from the withdrawal loop, `IndexError` (nobody left to withdraw from) — no
+    `ZeroDivisionError` any more (`Model:NestedTie` is the model's own marker for the one unmodelled shape) -/
+theorem qd_errors (cfg : Cfg) (votes : Votes) (n : Nat) (prev maxS : IMap) (hwf : WF votes prev)
+    (hq : 0 < cfg.quota (sumVals votes) n) (e : Err) (he : quotaDistribute cfg votes n prev maxS = .error e) :
+    e = .votingSystemError ∨ e = indexErr ∨ e = nestedTie := by
+  rw [qd_whole_quotas cfg votes n prev maxS hwf hq] at he
+  unfold applyPolicy at he
+  simp only at he
+  split at he
+  · cases hpol : cfg.onOver with
+    | ignore => rw [hpol] at he; cases he
+    | error => rw [hpol] at he; injection he with he; exact Or.inl he.symm
+    | subtract =>
+      rw [hpol] at he
+      simp only [subtractOveraward] at he
+      exact Or.inr (subtractLoop_err _ _ he)
+  · cases he
 
 /-- **Policy `'subtract'`, one withdrawal.**  Every successful pass of the withdrawal loop looks at the margins
     `v − q·(seats + prev)` of the current holders, finds the smallest margin `m`, and
@@ -259,34 +277,32 @@ theorem qd_subtract_empty (votes : Votes) (q : Rat) (prev : IMap) :
 
 /-! ## 3. LargestRemainder: whole quotas, then the largest exact remainders -/
 
-/-- the hypotheses under which the whole-quota stage of `LargestRemainder` is plain: a positive quota, no party's
-    whole quotas beyond the house (the default cap of its `QuotaDistributor`; `max_seats` is not passed on) and
-    no over-award -/
-structure Plain (cfg : Cfg) (votes : Votes) (n : Nat) (prev : IMap) : Prop where
+/-- the standing hypotheses of the remainder stage: a well-formed request, a positive quota, and whole quotas
+    (held at the caps) that do not over-fill the house -/
+structure Plain (cfg : Cfg) (votes : Votes) (n : Nat) (prev maxS : IMap) : Prop where
   wf : WF votes prev
   quota_pos : 0 < cfg.quota (sumVals votes) n
-  no_bind : NoCapBinds (cfg.quota (sumVals votes) n) cfg.acceptEqual n prev [] votes
-  no_over : totalAwarded (cfg.quota (sumVals votes) n) cfg.acceptEqual prev votes ≤ n
+  no_over : totalAwarded (cfg.quota (sumVals votes) n) cfg.acceptEqual prev maxS votes ≤ n
 
 /-- seats left for the remainder stage -/
-def remSeats (q : Rat) (ae : Bool) (n : Nat) (prev : IMap) (votes : Votes) : Int :=
-  (n : Int) - totalAwarded q ae prev votes
+def remSeats (q : Rat) (ae : Bool) (n : Nat) (prev maxS : IMap) (votes : Votes) : Int :=
+  (n : Int) - totalAwarded q ae prev maxS votes
 
 /-- the winners of the remainder stage: `get_n_best` over the exact remainders `v/q − gained` of the parties
     still below their cap -/
 def lrBest (q : Rat) (ae : Bool) (n : Nat) (prev maxS : IMap) (votes : Votes) : List Slot :=
-  getNBest (lrRems q ae prev maxS votes) (remSeats q ae n prev votes).toNat
+  getNBest (lrRems q ae prev maxS votes) (remSeats q ae n prev maxS votes).toNat
 
 /-- **Structure of the result.**  `LargestRemainder.evaluate` = the whole-quota dict, plus one seat for every
     place of `get_n_best(remainders, n − awarded)`. -/
 theorem lr_whole_then_remainders (cfg : Cfg) (votes : Votes) (n : Nat) (prev maxS : IMap)
-    (h : Plain cfg votes n prev) :
+    (h : Plain cfg votes n prev maxS) :
     largestRemainder cfg votes n prev maxS =
       .ok ((lrBest (cfg.quota (sumVals votes) n) cfg.acceptEqual n prev maxS votes).foldl
             (fun acc s => incK acc (slotKey s))
-            (wholeSel (cfg.quota (sumVals votes) n) cfg.acceptEqual prev votes)) := by
+            (wholeSel (cfg.quota (sumVals votes) n) cfg.acceptEqual prev maxS votes)) := by
   unfold largestRemainder
-  rw [qd_no_overaward cfg votes n prev [] h.wf h.quota_pos h.no_bind h.no_over]
+  rw [qd_no_overaward cfg votes n prev maxS h.wf h.quota_pos h.no_over]
   simp only
   rw [lrRemainders_eq _ _ _ _ _ h.wf.keys_nodup h.wf.prev_nodup, sumK_addDict, sumK_prevAsSel]
   rw [if_neg (fun hh => (ne_of_gt h.quota_pos) hh.1)]
@@ -294,23 +310,23 @@ theorem lr_whole_then_remainders (cfg : Cfg) (votes : Votes) (n : Nat) (prev max
 
 /-- **Whole quotas plus at most one.**  Every party ends with its whole-quota award, plus exactly one seat if
     it is an individual winner of the remainder stage, and nothing else. -/
-theorem lr_floor_plus_01 (cfg : Cfg) (votes : Votes) (n : Nat) (prev maxS : IMap) (h : Plain cfg votes n prev)
+theorem lr_floor_plus_01 (cfg : Cfg) (votes : Votes) (n : Nat) (prev maxS : IMap) (h : Plain cfg votes n prev maxS)
     (res : Sel) (hres : largestRemainder cfg votes n prev maxS = .ok res) (p : Cand × Rat) (hp : p ∈ votes) :
-    getK res (.cand p.1) 0 = wholeAward (cfg.quota (sumVals votes) n) cfg.acceptEqual prev p +
+    getK res (.cand p.1) 0 = wholeAward (cfg.quota (sumVals votes) n) cfg.acceptEqual prev maxS p +
       (if Slot.cand p.1 ∈ lrBest (cfg.quota (sumVals votes) n) cfg.acceptEqual n prev maxS votes then 1 else 0) := by
   rw [lr_whole_then_remainders cfg votes n prev maxS h] at hres
   injection hres with hres
   subst hres
-  rw [getK_foldl_incK, getK_wholeSel _ _ _ _ h.wf.keys_nodup p hp, count_slotKey_cand]
+  rw [getK_foldl_incK, getK_wholeSel _ _ _ _ _ h.wf.keys_nodup p hp, count_slotKey_cand]
   have hle := count_cand_getNBest_le_one (lrRems (cfg.quota (sumVals votes) n) cfg.acceptEqual prev maxS votes)
     (List.Nodup.sublist (keys_lrRems_sublist _ _ _ _ _) h.wf.keys_nodup)
-    (remSeats (cfg.quota (sumVals votes) n) cfg.acceptEqual n prev votes).toNat p.1
+    (remSeats (cfg.quota (sumVals votes) n) cfg.acceptEqual n prev maxS votes).toNat p.1
   unfold lrBest
   split
   · rename_i hm
     have := List.count_pos_iff.mpr hm
     have e : List.count (Slot.cand p.1) (getNBest (lrRems (cfg.quota (sumVals votes) n) cfg.acceptEqual prev maxS votes)
-      (remSeats (cfg.quota (sumVals votes) n) cfg.acceptEqual n prev votes).toNat) = 1 := by omega
+      (remSeats (cfg.quota (sumVals votes) n) cfg.acceptEqual n prev maxS votes).toNat) = 1 := by omega
     rw [e]; rfl
   · rename_i hm
     rw [List.count_eq_zero.mpr hm]; rfl
@@ -331,8 +347,8 @@ theorem lr_largest_remainders (cfg : Cfg) (votes : Votes) (n : Nat) (prev maxS :
     (hel' : eligible (cfg.quota (sumVals votes) n) cfg.acceptEqual prev maxS p' = true)
     (hwin : Slot.cand p.1 ∈ lrBest (cfg.quota (sumVals votes) n) cfg.acceptEqual n prev maxS votes)
     (hlose : Slot.cand p'.1 ∉ lrBest (cfg.quota (sumVals votes) n) cfg.acceptEqual n prev maxS votes) :
-    p'.2 / cfg.quota (sumVals votes) n - (gainedQ (cfg.quota (sumVals votes) n) cfg.acceptEqual prev p' : Rat) ≤
-      p.2 / cfg.quota (sumVals votes) n - (gainedQ (cfg.quota (sumVals votes) n) cfg.acceptEqual prev p : Rat) :=
+    p'.2 / cfg.quota (sumVals votes) n - (gainedQ (cfg.quota (sumVals votes) n) cfg.acceptEqual prev maxS p' : Rat) ≤
+      p.2 / cfg.quota (sumVals votes) n - (gainedQ (cfg.quota (sumVals votes) n) cfg.acceptEqual prev maxS p : Rat) :=
   elected_ge_unelected _ (List.Nodup.sublist (keys_lrRems_sublist _ _ _ _ _) hnd) _ _ _
     (mem_lrRems_of hp hel) (mem_lrRems_of hp' hel') hwin hlose
 
@@ -342,14 +358,14 @@ theorem lr_largest_remainders (cfg : Cfg) (votes : Votes) (n : Nat) (prev maxS :
 theorem lr_tie_shape (cfg : Cfg) (votes : Votes) (n : Nat) (prev maxS : IMap) (T : List Cand)
     (hT : Slot.tie T ∈ lrBest (cfg.quota (sumVals votes) n) cfg.acceptEqual n prev maxS votes) :
     let rems := lrRems (cfg.quota (sumVals votes) n) cfg.acceptEqual prev maxS votes
-    let r := (remSeats (cfg.quota (sumVals votes) n) cfg.acceptEqual n prev votes).toNat
+    let r := (remSeats (cfg.quota (sumVals votes) n) cfg.acceptEqual n prev maxS votes).toNat
     ∃ t, IsNth rems r t ∧ r < cntGe rems t ∧ T = level rems t ∧
       (lrBest (cfg.quota (sumVals votes) n) cfg.acceptEqual n prev maxS votes).count (Slot.tie T) = r - cntGt rems t :=
   tie_mem_getNBest _ _ _ hT
 
 /-- … and in the returned dict the `Tie` object (a frozenset: its members in canonical order) holds exactly those
     places. -/
-theorem lr_tie_seats (cfg : Cfg) (votes : Votes) (n : Nat) (prev maxS : IMap) (h : Plain cfg votes n prev)
+theorem lr_tie_seats (cfg : Cfg) (votes : Votes) (n : Nat) (prev maxS : IMap) (h : Plain cfg votes n prev maxS)
     (res : Sel) (hres : largestRemainder cfg votes n prev maxS = .ok res) (T : List Cand)
     (hT : Slot.tie T ∈ lrBest (cfg.quota (sumVals votes) n) cfg.acceptEqual n prev maxS votes) :
     getK res (mkTie T) 0 =
@@ -367,8 +383,8 @@ theorem lr_tie_seats (cfg : Cfg) (votes : Votes) (n : Nat) (prev maxS : IMap) (h
 
 /-- **Total.**  If the remainder seats do not outnumber the eligible parties, the result together with the
     previous gains fills the house exactly. -/
-theorem lr_total (cfg : Cfg) (votes : Votes) (n : Nat) (prev maxS : IMap) (h : Plain cfg votes n prev)
-    (hrem : (remSeats (cfg.quota (sumVals votes) n) cfg.acceptEqual n prev votes).toNat ≤
+theorem lr_total (cfg : Cfg) (votes : Votes) (n : Nat) (prev maxS : IMap) (h : Plain cfg votes n prev maxS)
+    (hrem : (remSeats (cfg.quota (sumVals votes) n) cfg.acceptEqual n prev maxS votes).toNat ≤
       (lrRems (cfg.quota (sumVals votes) n) cfg.acceptEqual prev maxS votes).length)
     (res : Sel) (hres : largestRemainder cfg votes n prev maxS = .ok res) :
     sumK res + sumI prev = n := by
@@ -385,11 +401,11 @@ theorem lr_total (cfg : Cfg) (votes : Votes) (n : Nat) (prev maxS : IMap) (h : P
 
 /-- **Fewer eligible parties than open seats.**  Outside the hypothesis of `lr_total` every eligible party takes
     exactly one remainder seat and the house stays short: the total is `awarded + #eligible`. -/
-theorem lr_short (cfg : Cfg) (votes : Votes) (n : Nat) (prev maxS : IMap) (h : Plain cfg votes n prev)
+theorem lr_short (cfg : Cfg) (votes : Votes) (n : Nat) (prev maxS : IMap) (h : Plain cfg votes n prev maxS)
     (hshort : (lrRems (cfg.quota (sumVals votes) n) cfg.acceptEqual prev maxS votes).length ≤
-      (remSeats (cfg.quota (sumVals votes) n) cfg.acceptEqual n prev votes).toNat)
+      (remSeats (cfg.quota (sumVals votes) n) cfg.acceptEqual n prev maxS votes).toNat)
     (res : Sel) (hres : largestRemainder cfg votes n prev maxS = .ok res) :
-    sumK res + sumI prev = totalAwarded (cfg.quota (sumVals votes) n) cfg.acceptEqual prev votes +
+    sumK res + sumI prev = totalAwarded (cfg.quota (sumVals votes) n) cfg.acceptEqual prev maxS votes +
         (lrRems (cfg.quota (sumVals votes) n) cfg.acceptEqual prev maxS votes).length ∧
       ∀ p ∈ votes, eligible (cfg.quota (sumVals votes) n) cfg.acceptEqual prev maxS p = true →
         Slot.cand p.1 ∈ lrBest (cfg.quota (sumVals votes) n) cfg.acceptEqual n prev maxS votes := by
@@ -411,7 +427,7 @@ theorem lr_short (cfg : Cfg) (votes : Votes) (n : Nat) (prev maxS : IMap) (h : P
     it never asks `get_n_best` for a negative number of places (repair 6adacaa) -/
 theorem lr_no_remainder_seats (cfg : Cfg) (votes : Votes) (n : Nat) (prev maxS : IMap) (r : Sel)
     (hq : cfg.quota (sumVals votes) n ≠ 0)
-    (hqd : quotaDistribute cfg votes n prev [] = .ok r) (hfull : (n : Int) ≤ sumK r + sumI prev) :
+    (hqd : quotaDistribute cfg votes n prev maxS = .ok r) (hfull : (n : Int) ≤ sumK r + sumI prev) :
     largestRemainder cfg votes n prev maxS = .ok r := by
   unfold largestRemainder
   rw [hqd]
@@ -424,42 +440,39 @@ theorem lr_no_remainder_seats (cfg : Cfg) (votes : Votes) (n : Nat) (prev maxS :
 /-- **Over-award policies carry over to `LargestRemainder`**: `'error'` raises … -/
 theorem lr_policy_error (cfg : Cfg) (votes : Votes) (n : Nat) (prev maxS : IMap) (hwf : WF votes prev)
     (hq : 0 < cfg.quota (sumVals votes) n)
-    (hnb : NoCapBinds (cfg.quota (sumVals votes) n) cfg.acceptEqual n prev [] votes)
-    (hpol : cfg.onOver = .error) (hname : cfg.named = true)
-    (hgt : (n : Int) < totalAwarded (cfg.quota (sumVals votes) n) cfg.acceptEqual prev votes) :
+    (hpol : cfg.onOver = .error)
+    (hgt : (n : Int) < totalAwarded (cfg.quota (sumVals votes) n) cfg.acceptEqual prev maxS votes) :
     largestRemainder cfg votes n prev maxS = .error .votingSystemError := by
   unfold largestRemainder
-  rw [qd_policy_error cfg votes n prev [] hwf hq hnb hpol hname hgt]
+  rw [qd_policy_error cfg votes n prev maxS hwf hq hpol hgt]
 
 /-- … `'ignore'` keeps the surplus: exactly the whole quotas, and no remainder seat on top … -/
 theorem lr_policy_ignore (cfg : Cfg) (votes : Votes) (n : Nat) (prev maxS : IMap) (hwf : WF votes prev)
     (hq : 0 < cfg.quota (sumVals votes) n)
-    (hnb : NoCapBinds (cfg.quota (sumVals votes) n) cfg.acceptEqual n prev [] votes)
     (hpol : cfg.onOver = .ignore)
-    (hgt : (n : Int) < totalAwarded (cfg.quota (sumVals votes) n) cfg.acceptEqual prev votes) :
+    (hgt : (n : Int) < totalAwarded (cfg.quota (sumVals votes) n) cfg.acceptEqual prev maxS votes) :
     largestRemainder cfg votes n prev maxS =
-      .ok (wholeSel (cfg.quota (sumVals votes) n) cfg.acceptEqual prev votes) :=
+      .ok (wholeSel (cfg.quota (sumVals votes) n) cfg.acceptEqual prev maxS votes) :=
   lr_no_remainder_seats cfg votes n prev maxS _ (ne_of_gt hq)
-    (qd_policy_ignore cfg votes n prev [] hwf hq hnb hpol) (by unfold totalAwarded at hgt; omega)
+    (qd_policy_ignore cfg votes n prev maxS hwf hq hpol) (by unfold totalAwarded at hgt; omega)
 
 /-- … and `'subtract'` returns what its `QuotaDistributor` returns, which totals `n`. -/
 theorem lr_policy_subtract (cfg : Cfg) (votes : Votes) (n : Nat) (prev maxS : IMap) (hwf : WF votes prev)
     (hq : 0 < cfg.quota (sumVals votes) n)
-    (hnb : NoCapBinds (cfg.quota (sumVals votes) n) cfg.acceptEqual n prev [] votes)
     (hpol : cfg.onOver = .subtract)
-    (hgt : (n : Int) < totalAwarded (cfg.quota (sumVals votes) n) cfg.acceptEqual prev votes) :
-    largestRemainder cfg votes n prev maxS = quotaDistribute cfg votes n prev [] ∧
+    (hgt : (n : Int) < totalAwarded (cfg.quota (sumVals votes) n) cfg.acceptEqual prev maxS votes) :
+    largestRemainder cfg votes n prev maxS = quotaDistribute cfg votes n prev maxS ∧
       ∀ res, largestRemainder cfg votes n prev maxS = .ok res → sumK res + sumI prev = n := by
-  have key : largestRemainder cfg votes n prev maxS = quotaDistribute cfg votes n prev [] := by
-    cases hqd : quotaDistribute cfg votes n prev [] with
+  have key : largestRemainder cfg votes n prev maxS = quotaDistribute cfg votes n prev maxS := by
+    cases hqd : quotaDistribute cfg votes n prev maxS with
     | error e => unfold largestRemainder; rw [hqd]
     | ok r =>
-      have := qd_policy_subtract_total cfg votes n prev [] hwf hq hnb hpol hgt r hqd
+      have := qd_policy_subtract_total cfg votes n prev maxS hwf hq hpol hgt r hqd
       exact lr_no_remainder_seats cfg votes n prev maxS r (ne_of_gt hq) hqd (by omega)
   refine ⟨key, ?_⟩
   intro res hres
   rw [key] at hres
-  exact qd_policy_subtract_total cfg votes n prev [] hwf hq hnb hpol hgt res hres
+  exact qd_policy_subtract_total cfg votes n prev maxS hwf hq hpol hgt res hres
 
 /-! ## 4. exact quotas fill the house; the Hare quota rule -/
 
@@ -468,12 +481,11 @@ theorem lr_policy_subtract (cfg : Cfg) (votes : Votes) (n : Nat) (prev maxS : IM
     stage is plain fills the house exactly. -/
 theorem lr_total_exact (cfg : Cfg) (k : Nat) (hquota : ∀ V n, cfg.quota V n = V / ((n : Rat) + k))
     (votes : Votes) (n : Nat) (hwf : WF votes []) (hV : 0 < sumVals votes) (hn : 1 ≤ n)
-    (hnb : NoCapBinds (cfg.quota (sumVals votes) n) cfg.acceptEqual n [] [] votes)
-    (hle : totalAwarded (cfg.quota (sumVals votes) n) cfg.acceptEqual [] votes ≤ n)
+    (hle : totalAwarded (cfg.quota (sumVals votes) n) cfg.acceptEqual [] [] votes ≤ n)
     (res : Sel) (hres : largestRemainder cfg votes n [] [] = .ok res) : sumK res = n := by
   obtain ⟨hq, _, _, _, hlen⟩ := exact_quota_facts (cfg.quota (sumVals votes) n) cfg.acceptEqual k votes n
     (hquota _ _) hwf.votes_nonneg hV hn
-  have hplain : Plain cfg votes n [] := ⟨hwf, hq, hnb, hle⟩
+  have hplain : Plain cfg votes n [] [] := ⟨hwf, hq, hle⟩
   have := lr_total cfg votes n [] [] hplain (by
     rw [lrRems_plain hq _ _ hwf.votes_nonneg, List.length_map]
     unfold remSeats totalAwarded
@@ -487,26 +499,20 @@ theorem lr_total_exact (cfg : Cfg) (k : Nat) (hquota : ∀ V n, cfg.quota V n = 
     the whole quotas is needed (they never exceed the house, and never over-award). -/
 theorem lr_total_hare (ae : Bool) (pol : OnOver) (votes : Votes) (n : Nat) (hwf : WF votes [])
     (hV : 0 < sumVals votes) (hn : 1 ≤ n) :
-    ∃ res, largestRemainder ⟨Gen.Quota.hare, ae, pol, true⟩ votes n [] [] = .ok res ∧ sumK res = n := by
+    ∃ res, largestRemainder ⟨Gen.Quota.hare, ae, pol⟩ votes n [] [] = .ok res ∧ sumK res = n := by
   have hquota : ∀ (V : Rat) (m : Nat), Gen.Quota.hare V m = V / ((m : Rat) + (0 : Nat)) := by
     intro V m; rw [quota_textbook_hare]; simp
   obtain ⟨hq, _, hsum, hmem, _⟩ := exact_quota_facts (Gen.Quota.hare (sumVals votes) n) ae 0 votes n
     (hquota _ _) hwf.votes_nonneg hV hn
-  have hnb : NoCapBinds (Gen.Quota.hare (sumVals votes) n) ae n [] [] votes := by
-    intro p hp
-    left
-    have := hmem p hp
-    rw [getI_nil]
-    simpa using this
-  have hle : totalAwarded (Gen.Quota.hare (sumVals votes) n) ae [] votes ≤ n := by
+  have hle : totalAwarded (Gen.Quota.hare (sumVals votes) n) ae [] [] votes ≤ n := by
     unfold totalAwarded
     rw [totalAwarded_plain_aux hq _ _ hwf.votes_nonneg]
     have : sumI [] = 0 := rfl
     simp only [Nat.cast_zero, add_zero] at hsum
     omega
-  have hplain : Plain ⟨Gen.Quota.hare, ae, pol, true⟩ votes n [] := ⟨hwf, hq, hnb, hle⟩
+  have hplain : Plain ⟨Gen.Quota.hare, ae, pol⟩ votes n [] [] := ⟨hwf, hq, hle⟩
   refine ⟨_, lr_whole_then_remainders _ votes n [] [] hplain, ?_⟩
-  exact lr_total_exact ⟨Gen.Quota.hare, ae, pol, true⟩ 0 hquota votes n hwf hV hn hnb hle _
+  exact lr_total_exact ⟨Gen.Quota.hare, ae, pol⟩ 0 hquota votes n hwf hV hn hle _
     (lr_whole_then_remainders _ votes n [] [] hplain)
 
 /-- **Hare quota rule.**  In a plain Hare election every party receives its exact share `v·n/V` rounded down or
@@ -514,7 +520,7 @@ theorem lr_total_hare (ae : Bool) (pol : OnOver) (votes : Votes) (n : Nat) (hwf 
     quota but is then first in line for a remainder seat. -/
 theorem hare_quota_rule (ae : Bool) (pol : OnOver) (votes : Votes) (n : Nat) (hwf : WF votes [])
     (hV : 0 < sumVals votes) (hn : 1 ≤ n)
-    (res : Sel) (hres : largestRemainder ⟨Gen.Quota.hare, ae, pol, true⟩ votes n [] [] = .ok res)
+    (res : Sel) (hres : largestRemainder ⟨Gen.Quota.hare, ae, pol⟩ votes n [] [] = .ok res)
     (p : Cand × Rat) (hp : p ∈ votes) :
     ⌊p.2 * n / sumVals votes⌋ ≤ getK res (.cand p.1) 0 ∧ getK res (.cand p.1) 0 ≤ ⌈p.2 * n / sumVals votes⌉ := by
   have hquota : ∀ (V : Rat) (m : Nat), Gen.Quota.hare V m = V / ((m : Rat) + (0 : Nat)) := by
@@ -522,13 +528,11 @@ theorem hare_quota_rule (ae : Bool) (pol : OnOver) (votes : Votes) (n : Nat) (hw
   obtain ⟨hq, hVq, hsum, hmem, _⟩ := exact_quota_facts (Gen.Quota.hare (sumVals votes) n) ae 0 votes n
     (hquota _ _) hwf.votes_nonneg hV hn
   simp only [Nat.cast_zero, add_zero] at hVq hsum hmem
-  have hnb : NoCapBinds (Gen.Quota.hare (sumVals votes) n) ae n [] [] votes := by
-    intro p hp; left; rw [getI_nil]; exact hmem p hp
   have h0 : sumI [] = 0 := rfl
-  have hle : totalAwarded (Gen.Quota.hare (sumVals votes) n) ae [] votes ≤ n := by
+  have hle : totalAwarded (Gen.Quota.hare (sumVals votes) n) ae [] [] votes ≤ n := by
     unfold totalAwarded
     rw [totalAwarded_plain_aux hq _ _ hwf.votes_nonneg]; omega
-  have hplain : Plain ⟨Gen.Quota.hare, ae, pol, true⟩ votes n [] := ⟨hwf, hq, hnb, hle⟩
+  have hplain : Plain ⟨Gen.Quota.hare, ae, pol⟩ votes n [] [] := ⟨hwf, hq, hle⟩
   have hseats := lr_floor_plus_01 _ votes n [] [] hplain res hres p hp
   simp only at hseats
   rw [wholeAward_nil hq ae p (hwf.votes_nonneg p hp)] at hseats
@@ -539,33 +543,32 @@ theorem hare_quota_rule (ae : Bool) (pol : OnOver) (votes : Votes) (n : Nat) (hw
     field_simp
   rw [hshare]
   -- r = Σ remainders
-  have hr0 : 0 ≤ remSeats (Gen.Quota.hare (sumVals votes) n) ae n [] votes := by
+  have hr0 : 0 ≤ remSeats (Gen.Quota.hare (sumVals votes) n) ae n [] [] votes := by
     unfold remSeats totalAwarded
     rw [totalAwarded_plain_aux hq _ _ hwf.votes_nonneg, h0]; omega
-  have hrnat : (((remSeats (Gen.Quota.hare (sumVals votes) n) ae n [] votes).toNat : Nat) : Rat) =
+  have hrnat : (((remSeats (Gen.Quota.hare (sumVals votes) n) ae n [] [] votes).toNat : Nat) : Rat) =
       ((lrRems (Gen.Quota.hare (sumVals votes) n) ae [] [] votes).map (·.2)).sum := by
     have hremvals : (lrRems (Gen.Quota.hare (sumVals votes) n) ae [] [] votes).map (·.2) =
         votes.map (fun p => p.2 / Gen.Quota.hare (sumVals votes) n -
           (wholeQ (Gen.Quota.hare (sumVals votes) n) ae p.2 : Rat)) := by
       rw [lrRems_plain hq ae votes hwf.votes_nonneg, List.map_map]; rfl
-    have hr : ((remSeats (Gen.Quota.hare (sumVals votes) n) ae n [] votes : Int) : Rat) =
+    have hr : ((remSeats (Gen.Quota.hare (sumVals votes) n) ae n [] [] votes : Int) : Rat) =
         ((lrRems (Gen.Quota.hare (sumVals votes) n) ae [] [] votes).map (·.2)).sum := by
       rw [hremvals, sum_rems, hVq]
       unfold remSeats totalAwarded
       rw [totalAwarded_plain_aux hq _ _ hwf.votes_nonneg, h0]
       push_cast; ring
     rw [← hr]
-    have : (((remSeats (Gen.Quota.hare (sumVals votes) n) ae n [] votes).toNat : Nat) : Int) =
-        remSeats (Gen.Quota.hare (sumVals votes) n) ae n [] votes := Int.toNat_of_nonneg hr0
+    have : (((remSeats (Gen.Quota.hare (sumVals votes) n) ae n [] [] votes).toNat : Nat) : Int) =
+        remSeats (Gen.Quota.hare (sumVals votes) n) ae n [] [] votes := Int.toNat_of_nonneg hr0
     exact_mod_cast congrArg (fun z : Int => (z : Rat)) this
   exact quota_rule_aux _ ae votes hwf.keys_nodup hwf.votes_nonneg hq _ hrnat p hp _ hseats
 
-/-- **Droop never over-awards.**  With the Droop quota (or any quota `q > V/(n+1)`) a plain election always has a
-    plain whole-quota stage: no party's whole quotas exceed the house and their sum does not either, so none of
-    the over-award policies is ever consulted. -/
+/-- **Droop never over-awards.**  With the Droop quota (or any quota `q > V/(n+1)`) the whole quotas of a plain
+    election never exceed the house, so none of the over-award policies is ever consulted. -/
 theorem lr_plain_of_quota_gt (cfg : Cfg) (votes : Votes) (n : Nat) (hwf : WF votes [])
     (hq : sumVals votes / ((n : Rat) + 1) < cfg.quota (sumVals votes) n) (hV : 0 ≤ sumVals votes) :
-    Plain cfg votes n [] := by
+    Plain cfg votes n [] [] := by
   have hn1 : (0 : Rat) < (n : Rat) + 1 := by positivity
   have hq0 : 0 < cfg.quota (sumVals votes) n := lt_of_le_of_lt (div_nonneg hV (le_of_lt hn1)) hq
   generalize hqd : cfg.quota (sumVals votes) n = q at *
@@ -586,74 +589,48 @@ theorem lr_plain_of_quota_gt (cfg : Cfg) (votes : Votes) (n : Nat) (hwf : WF vot
     have : (votes.map (fun p => wholeQ q cfg.acceptEqual p.2)).sum < (n : Int) + 1 := by exact_mod_cast this
     omega
   have h0 : sumI [] = 0 := rfl
-  have key : NoCapBinds q cfg.acceptEqual n [] [] votes ∧ totalAwarded q cfg.acceptEqual [] votes ≤ n := by
-    refine ⟨?_, ?_⟩
-    · intro p hp
-      left
-      rw [getI_nil]
-      have h1 : p.2 / q ≤ (votes.map (fun p => p.2 / q)).sum :=
-        mem_le_sum _ (by
-          intro x hx
-          obtain ⟨p', hp', rfl⟩ := List.mem_map.mp hx
-          exact div_nonneg (hwf.votes_nonneg p' hp') (le_of_lt hq0)) _ (List.mem_map.mpr ⟨p, hp, rfl⟩)
-      rw [sum_map_div] at h1
-      have h2 := (rem_bounds (v := p.2) hq0 cfg.acceptEqual).1
-      have : ((wholeQ q cfg.acceptEqual p.2 : Int) : Rat) < (((n : Int) + 1 : Int) : Rat) := by push_cast; linarith
-      have : wholeQ q cfg.acceptEqual p.2 < (n : Int) + 1 := by exact_mod_cast this
-      omega
-    · unfold totalAwarded
-      rw [totalAwarded_plain_aux hq0 _ _ hwf.votes_nonneg, h0]
-      omega
+  have key : totalAwarded q cfg.acceptEqual [] [] votes ≤ n := by
+    unfold totalAwarded
+    rw [totalAwarded_plain_aux hq0 _ _ hwf.votes_nonneg, h0]
+    omega
   subst hqd
-  exact ⟨hwf, hq0, key.1, key.2⟩
+  exact ⟨hwf, hq0, key⟩
 
 theorem lr_plain_droop (ae : Bool) (pol : OnOver) (votes : Votes) (n : Nat) (hwf : WF votes [])
-    (hV : 0 ≤ sumVals votes) : Plain ⟨Gen.Quota.droop, ae, pol, true⟩ votes n [] :=
+    (hV : 0 ≤ sumVals votes) : Plain ⟨Gen.Quota.droop, ae, pol⟩ votes n [] [] :=
   lr_plain_of_quota_gt _ votes n hwf (quota_droop_least (sumVals votes) n hV).1 hV
 
 /-- **Hagenbach-Bischoff**: the total is `n` whenever the whole-quota stage is plain -/
 theorem lr_total_hagenbach_bischoff (ae : Bool) (pol : OnOver) (votes : Votes) (n : Nat) (hwf : WF votes [])
     (hV : 0 < sumVals votes) (hn : 1 ≤ n)
-    (hnb : NoCapBinds (Gen.Quota.hagenbach_bischoff (sumVals votes) n) ae n [] [] votes)
-    (hle : totalAwarded (Gen.Quota.hagenbach_bischoff (sumVals votes) n) ae [] votes ≤ n)
-    (res : Sel) (hres : largestRemainder ⟨Gen.Quota.hagenbach_bischoff, ae, pol, true⟩ votes n [] [] = .ok res) :
+    (hle : totalAwarded (Gen.Quota.hagenbach_bischoff (sumVals votes) n) ae [] [] votes ≤ n)
+    (res : Sel) (hres : largestRemainder ⟨Gen.Quota.hagenbach_bischoff, ae, pol⟩ votes n [] [] = .ok res) :
     sumK res = n :=
-  lr_total_exact ⟨Gen.Quota.hagenbach_bischoff, ae, pol, true⟩ 1
-    (by intro V m; show Gen.Quota.hagenbach_bischoff V m = _; rw [quota_textbook_hagenbach_bischoff]; simp) votes n hwf hV hn hnb hle res hres
+  lr_total_exact ⟨Gen.Quota.hagenbach_bischoff, ae, pol⟩ 1
+    (by intro V m; show Gen.Quota.hagenbach_bischoff V m = _; rw [quota_textbook_hagenbach_bischoff]; simp) votes n hwf hV hn hle res hres
 
 /-- **Imperiali**: the total is `n` whenever the whole-quota stage is plain -/
 theorem lr_total_imperiali (ae : Bool) (pol : OnOver) (votes : Votes) (n : Nat) (hwf : WF votes [])
     (hV : 0 < sumVals votes) (hn : 1 ≤ n)
-    (hnb : NoCapBinds (Gen.Quota.imperiali (sumVals votes) n) ae n [] [] votes)
-    (hle : totalAwarded (Gen.Quota.imperiali (sumVals votes) n) ae [] votes ≤ n)
-    (res : Sel) (hres : largestRemainder ⟨Gen.Quota.imperiali, ae, pol, true⟩ votes n [] [] = .ok res) :
+    (hle : totalAwarded (Gen.Quota.imperiali (sumVals votes) n) ae [] [] votes ≤ n)
+    (res : Sel) (hres : largestRemainder ⟨Gen.Quota.imperiali, ae, pol⟩ votes n [] [] = .ok res) :
     sumK res = n :=
-  lr_total_exact ⟨Gen.Quota.imperiali, ae, pol, true⟩ 2
-    (by intro V m; show Gen.Quota.imperiali V m = _; rw [quota_textbook_imperiali]; simp) votes n hwf hV hn hnb hle res hres
+  lr_total_exact ⟨Gen.Quota.imperiali, ae, pol⟩ 2
+    (by intro V m; show Gen.Quota.imperiali V m = _; rw [quota_textbook_imperiali]; simp) votes n hwf hV hn hle res hres
 
-/-! ## 5. caps (`max_seats`)
+/-! ## 5. caps (`max_seats`): full statements, no side condition -/
 
-  Full statements, NOT provable for the code as it stands (open findings C02-a, C02-b, C02-d):
-
-    theorem qd_cap  : WF votes prev → 0 < q → quotaDistribute cfg votes n prev maxS = .ok res →
-                        CapsRespected q ae prev maxS votes res
-    theorem lr_cap  : WF votes prev → 0 < q → largestRemainder cfg votes n prev maxS = .ok res →
-                        CapsRespected q ae prev maxS votes res
-    theorem lr_cap_total : … → sumK res + sumI prev = n        (when the caps leave room)
-    theorem qd_policy_honoured : the three policy theorems of section 2 without the `n_seats` part of `NoCapBinds`
-
-  Proved here: the `_partial` versions (no cap binds on the whole quotas), and `_witness` theorems showing the
-  model — which mirrors the code — violating each full statement on a concrete input.
--/
-
-/-- a capped party never exceeds its cap, and sits exactly at the cap when its whole quotas reach it
-    (a party whose previous gains already exceed the cap is outside the statement) -/
+/-- the cap sentence of the property for one party (a party whose previous gains already exceed its cap is
+    outside the statement): with a cap `m` — the total `seats + prev` never exceeds `m`, it is exactly `m` when the
+    whole quotas reach the cap, and it is at least the whole quotas when they do not; without a cap — at least the
+    whole quotas -/
 def capOK (q : Rat) (ae : Bool) (prev maxS : IMap) (res : Sel) (p : Cand × Rat) : Prop :=
   match getCap maxS p.1 with
   | some m => getI prev p.1 0 ≤ m →
       getK res (.cand p.1) 0 + getI prev p.1 0 ≤ m ∧
-      (m ≤ wholeQ q ae p.2 → getK res (.cand p.1) 0 + getI prev p.1 0 = m)
-  | none => True
+      (m ≤ wholeQ q ae p.2 → getK res (.cand p.1) 0 + getI prev p.1 0 = m) ∧
+      (wholeQ q ae p.2 ≤ m → wholeQ q ae p.2 ≤ getK res (.cand p.1) 0 + getI prev p.1 0)
+  | none => wholeQ q ae p.2 ≤ getK res (.cand p.1) 0 + getI prev p.1 0
 
 instance (q : Rat) (ae : Bool) (prev maxS : IMap) (res : Sel) (p : Cand × Rat) :
     Decidable (capOK q ae prev maxS res p) := by
@@ -667,161 +644,178 @@ instance (q : Rat) (ae : Bool) (prev maxS : IMap) (votes : Votes) (res : Sel) :
     Decidable (CapsRespected q ae prev maxS votes res) := by
   unfold CapsRespected; infer_instance
 
-/-- **Caps, partial (QuotaDistributor).**  When no cap binds on the whole quotas and the whole quotas are returned
-    (no over-award, or policy `'ignore'`), every cap is respected and a party whose whole quotas reach its cap
-    sits exactly on it. -/
-theorem qd_cap_partial (cfg : Cfg) (votes : Votes) (n : Nat) (prev maxS : IMap) (hwf : WF votes prev)
+private theorem capOK_of_award {q : Rat} {ae : Bool} {prev maxS : IMap} {res : Sel} {p : Cand × Rat}
+    (extra : Int) (h0 : 0 ≤ extra) (h1 : extra ≤ 1)
+    (hseats : getK res (.cand p.1) 0 = wholeAward q ae prev maxS p + extra)
+    (hel : extra = 1 → eligible q ae prev maxS p = true) : capOK q ae prev maxS res p := by
+  unfold capOK
+  unfold eligible gainedQ at hel
+  unfold wholeAward capQ at hseats hel
+  cases hc : getCap maxS p.1 with
+  | none =>
+    rw [hc] at hseats
+    simp only at hseats ⊢
+    omega
+  | some m =>
+    rw [hc] at hseats hel
+    simp only at hseats hel ⊢
+    intro hpm
+    by_cases he : extra = 1
+    · have := hel he
+      simp only [decide_eq_true_eq] at this
+      refine ⟨by omega, fun _ => by omega, fun _ => by omega⟩
+    · have : extra = 0 := by omega
+      refine ⟨by omega, fun _ => by omega, fun _ => by omega⟩
+
+/-- **Caps (QuotaDistributor).**  Whenever the whole quotas are returned (no over-award, or policy `'ignore'`),
+    no party exceeds its cap, a party whose whole quotas reach its cap sits exactly on it, and every other party
+    receives at least its whole quotas. -/
+theorem qd_cap (cfg : Cfg) (votes : Votes) (n : Nat) (prev maxS : IMap) (hwf : WF votes prev)
     (hq : 0 < cfg.quota (sumVals votes) n)
-    (hnb : NoCapBinds (cfg.quota (sumVals votes) n) cfg.acceptEqual n prev maxS votes)
-    (hpol : totalAwarded (cfg.quota (sumVals votes) n) cfg.acceptEqual prev votes ≤ n ∨ cfg.onOver = .ignore)
+    (hpol : totalAwarded (cfg.quota (sumVals votes) n) cfg.acceptEqual prev maxS votes ≤ n ∨ cfg.onOver = .ignore)
     (res : Sel) (hres : quotaDistribute cfg votes n prev maxS = .ok res) :
     CapsRespected (cfg.quota (sumVals votes) n) cfg.acceptEqual prev maxS votes res := by
-  have hr : res = wholeSel (cfg.quota (sumVals votes) n) cfg.acceptEqual prev votes := by
+  have hr : res = wholeSel (cfg.quota (sumVals votes) n) cfg.acceptEqual prev maxS votes := by
     rcases hpol with h | h
-    · rw [qd_no_overaward cfg votes n prev maxS hwf hq hnb h] at hres; injection hres with e; exact e.symm
-    · rw [qd_policy_ignore cfg votes n prev maxS hwf hq hnb h] at hres; injection hres with e; exact e.symm
+    · rw [qd_no_overaward cfg votes n prev maxS hwf hq h] at hres; injection hres with e; exact e.symm
+    · rw [qd_policy_ignore cfg votes n prev maxS hwf hq h] at hres; injection hres with e; exact e.symm
   subst hr
   intro p hp
-  unfold capOK
-  split
-  · rename_i m hm
-    intro hpm
-    rw [getK_wholeSel _ _ _ _ hwf.keys_nodup p hp]
-    unfold wholeAward
-    have hb := hnb p hp
-    rw [getI_of_getCap hm] at hb
-    constructor
-    · rcases hb with h | h <;> omega
-    · intro hge; rcases hb with h | h <;> omega
-  · trivial
+  exact capOK_of_award 0 (le_refl 0) (by omega)
+    (by rw [getK_wholeSel _ _ _ _ _ hwf.keys_nodup p hp]; ring) (by intro h; omega)
 
-/-- **Caps, partial (LargestRemainder).**  When the whole-quota stage is plain and no explicit cap binds on the
-    whole quotas, the remainder stage respects every cap: a party on its cap takes no remainder seat. -/
-theorem lr_cap_partial (cfg : Cfg) (votes : Votes) (n : Nat) (prev maxS : IMap) (h : Plain cfg votes n prev)
-    (hcap : ∀ p ∈ votes, ∀ m, getCap maxS p.1 = some m →
-      wholeQ (cfg.quota (sumVals votes) n) cfg.acceptEqual p.2 ≤ m)
+/-- **Caps (LargestRemainder).**  The same for the final result: the whole-quota stage holds every party at its
+    cap and a party on its cap takes no remainder seat. -/
+theorem lr_cap (cfg : Cfg) (votes : Votes) (n : Nat) (prev maxS : IMap) (h : Plain cfg votes n prev maxS)
     (res : Sel) (hres : largestRemainder cfg votes n prev maxS = .ok res) :
     CapsRespected (cfg.quota (sumVals votes) n) cfg.acceptEqual prev maxS votes res := by
   intro p hp
-  unfold capOK
-  split
-  · rename_i m hm
-    intro hpm
-    have hseats := lr_floor_plus_01 cfg votes n prev maxS h res hres p hp
-    have hw := hcap p hp m hm
-    have hg : gainedQ (cfg.quota (sumVals votes) n) cfg.acceptEqual prev p ≤ m := by
-      unfold gainedQ wholeAward; omega
-    by_cases hel : Slot.cand p.1 ∈ lrBest (cfg.quota (sumVals votes) n) cfg.acceptEqual n prev maxS votes
-    · obtain ⟨p', hp', he, helig⟩ := lr_extra_only_eligible cfg votes n prev maxS p.1 hel
-      have hpp : p' = p := List.inj_on_of_nodup_map h.wf.keys_nodup hp' hp he
-      subst hpp
-      unfold eligible at helig
-      rw [hm] at helig
-      simp only [decide_eq_true_eq] at helig
-      rw [if_pos hel] at hseats
-      unfold gainedQ wholeAward at helig hg
-      unfold wholeAward at hseats
-      constructor
-      · omega
-      · intro hge; omega
-    · rw [if_neg hel] at hseats
-      unfold gainedQ wholeAward at hg
-      unfold wholeAward at hseats
-      constructor
-      · omega
-      · intro hge; omega
-  · trivial
+  have hseats := lr_floor_plus_01 cfg votes n prev maxS h res hres p hp
+  by_cases hel : Slot.cand p.1 ∈ lrBest (cfg.quota (sumVals votes) n) cfg.acceptEqual n prev maxS votes
+  · rw [if_pos hel] at hseats
+    obtain ⟨p', hp', he, helig⟩ := lr_extra_only_eligible cfg votes n prev maxS p.1 hel
+    have hpp : p' = p := List.inj_on_of_nodup_map h.wf.keys_nodup hp' hp he
+    subst hpp
+    exact capOK_of_award 1 (by omega) (le_refl 1) hseats (fun _ => helig)
+  · rw [if_neg hel] at hseats
+    exact capOK_of_award 0 (le_refl 0) (by omega) hseats (by intro h; omega)
 
-/-- **Witness (finding C02-a).**  `QuotaDistributor('hare').evaluate({A:60,B:30,C:10}, 10, max_seats={A:4})`:
-    the model, like the code, returns `A:0` — the capped party loses its whole entitlement. -/
-theorem qd_cap_witness :
-    ∃ res, quotaDistribute ⟨Gen.Quota.hare, true, .error, true⟩ [(0, 60), (1, 30), (2, 10)] 10 [] [(0, 4)] = .ok res ∧
-      res = [(.cand 0, 0), (.cand 1, 4), (.cand 2, 1)] ∧
-      ¬ CapsRespected (Gen.Quota.hare 100 10) true [] [(0, 4)] [(0, 60), (1, 30), (2, 10)] res :=
-  ⟨_, by decide +kernel, rfl, by decide +kernel⟩
+/-- **Caps leave the total unchanged.**  With caps in force the result still fills the house exactly, provided the
+    open seats do not outnumber the parties below their cap (outside that hypothesis "at most one further seat"
+    and "total = n" are jointly unsatisfiable; `lr_short` gives the total there). -/
+theorem lr_cap_total (cfg : Cfg) (votes : Votes) (n : Nat) (prev maxS : IMap) (h : Plain cfg votes n prev maxS)
+    (hrem : (remSeats (cfg.quota (sumVals votes) n) cfg.acceptEqual n prev maxS votes).toNat ≤
+      ((votes.filter (fun p => eligible (cfg.quota (sumVals votes) n) cfg.acceptEqual prev maxS p)).length))
+    (res : Sel) (hres : largestRemainder cfg votes n prev maxS = .ok res) :
+    sumK res + sumI prev = n := by
+  refine lr_total cfg votes n prev maxS h ?_ res hres
+  rw [length_lrRems]; exact hrem
 
-/-- … and with `prev_gains={A:1}` the award is negative. -/
-theorem qd_cap_negative_witness :
-    quotaDistribute ⟨Gen.Quota.hare, true, .error, true⟩ [(0, 60), (1, 30), (2, 10)] 10 [(0, 1)] [(0, 4)] =
-      .ok [(.cand 0, -1), (.cand 1, 4), (.cand 2, 1)] := by decide +kernel
+/-- under policy `'subtract'` seats are only withdrawn from parties, so the caps stay respected as upper bounds -/
+theorem qd_cap_subtract (cfg : Cfg) (votes : Votes) (n : Nat) (prev maxS : IMap) (hwf : WF votes prev)
+    (hq : 0 < cfg.quota (sumVals votes) n) (res : Sel)
+    (hres : quotaDistribute cfg votes n prev maxS = .ok res) (p : Cand × Rat) (hp : p ∈ votes) :
+    getK res (.cand p.1) 0 ≤ wholeAward (cfg.quota (sumVals votes) n) cfg.acceptEqual prev maxS p := by
+  rw [qd_whole_quotas cfg votes n prev maxS hwf hq] at hres
+  rw [← getK_wholeSel _ _ _ _ _ hwf.keys_nodup p hp]
+  unfold applyPolicy at hres
+  simp only at hres
+  split at hres
+  · cases hpol : cfg.onOver with
+    | ignore => rw [hpol] at hres; injection hres with e; rw [← e]
+    | error => rw [hpol] at hres; cases hres
+    | subtract =>
+      rw [hpol] at hres
+      simp only [subtractOveraward] at hres
+      exact subtractLoop_cand_le _ _ _ _ _ _ _ hres
+  · injection hres with e; rw [← e]
 
-/-- **Witness (finding C02-b).**  `LargestRemainder('hare').evaluate({A:60,B:30,C:10}, 10, max_seats={A:4})`
-    returns `A:6`: `max_seats` never reaches the whole-quota stage. -/
-theorem lr_cap_witness :
-    ∃ res, largestRemainder ⟨Gen.Quota.hare, true, .error, true⟩ [(0, 60), (1, 30), (2, 10)] 10 [] [(0, 4)] = .ok res ∧
-      res = [(.cand 0, 6), (.cand 1, 3), (.cand 2, 1)] ∧
-      ¬ CapsRespected (Gen.Quota.hare 100 10) true [] [(0, 4)] [(0, 60), (1, 30), (2, 10)] res :=
-  ⟨_, by decide +kernel, rfl, by decide +kernel⟩
+/-! ### the defects the repairs removed, as theorems about the pre-repair model `VL.QDPre` -/
 
-/-- **Witness (finding C02-d).**  Without any `max_seats`, a party whose whole quotas exceed the house enters the
-    overshoot branch through the default cap `n_seats`: policy `'ignore'` does not keep the surplus
-    (`{A:90,B:10,C:10}`, 3 seats, Imperiali: whole quotas `{A:4}`, returned `{A:0,B:3,C:3}`) … -/
-theorem qd_house_witness :
-    quotaDistribute ⟨Gen.Quota.imperiali, true, .ignore, true⟩ [(0, 90), (1, 10), (2, 10)] 3 [] [] =
+/-- **9571110^, finding C02-a.**  `QuotaDistributor('hare').evaluate({A:60,B:30,C:10}, 10, max_seats={A:4})`
+    returned `A:0` (the capped party lost its whole entitlement); the repaired model returns `A:4`. -/
+theorem prefix_qd_cap_witness :
+    (∃ res, QDPre.quotaDistribute ⟨Gen.Quota.hare, true, .error, true⟩ [(0, 60), (1, 30), (2, 10)] 10 [] [(0, 4)]
+        = .ok res ∧ res = [(.cand 0, 0), (.cand 1, 4), (.cand 2, 1)] ∧
+      ¬ CapsRespected (Gen.Quota.hare 100 10) true [] [(0, 4)] [(0, 60), (1, 30), (2, 10)] res) ∧
+    quotaDistribute ⟨Gen.Quota.hare, true, .error⟩ [(0, 60), (1, 30), (2, 10)] 10 [] [(0, 4)]
+      = .ok [(.cand 0, 4), (.cand 1, 3), (.cand 2, 1)] :=
+  ⟨⟨_, by decide +kernel, rfl, by decide +kernel⟩, by decide +kernel⟩
+
+/-- … with `prev_gains={A:1}` the award was negative. -/
+theorem prefix_qd_cap_negative_witness :
+    QDPre.quotaDistribute ⟨Gen.Quota.hare, true, .error, true⟩ [(0, 60), (1, 30), (2, 10)] 10 [(0, 1)] [(0, 4)] =
+      .ok [(.cand 0, -1), (.cand 1, 4), (.cand 2, 1)] ∧
+    quotaDistribute ⟨Gen.Quota.hare, true, .error⟩ [(0, 60), (1, 30), (2, 10)] 10 [(0, 1)] [(0, 4)] =
+      .ok [(.cand 0, 3), (.cand 1, 3), (.cand 2, 1)] := by
+  constructor <;> decide +kernel
+
+/-- **9571110^, finding C02-b.**  `LargestRemainder('hare').evaluate({A:60,B:30,C:10}, 10, max_seats={A:4})`
+    returned `A:6`; now `{A:4,B:4,C:2}`. -/
+theorem prefix_lr_cap_witness :
+    (∃ res, QDPre.largestRemainder ⟨Gen.Quota.hare, true, .error, true⟩ [(0, 60), (1, 30), (2, 10)] 10 [] [(0, 4)]
+        = .ok res ∧ res = [(.cand 0, 6), (.cand 1, 3), (.cand 2, 1)] ∧
+      ¬ CapsRespected (Gen.Quota.hare 100 10) true [] [(0, 4)] [(0, 60), (1, 30), (2, 10)] res) ∧
+    largestRemainder ⟨Gen.Quota.hare, true, .error⟩ [(0, 60), (1, 30), (2, 10)] 10 [] [(0, 4)]
+      = .ok [(.cand 0, 4), (.cand 1, 4), (.cand 2, 2)] :=
+  ⟨⟨_, by decide +kernel, rfl, by decide +kernel⟩, by decide +kernel⟩
+
+/-- **9571110^, finding C02-d.**  Without any `max_seats`, a party whose whole quotas exceed the house entered the
+    overshoot branch through the default cap `n_seats`: `'ignore'` returned `{A:0,B:3,C:3}` instead of keeping the
+    surplus `{A:4}` (`{A:90,B:10,C:10}`, 3 seats, Imperiali), and `'subtract'` died with `ZeroDivisionError`
+    (`{a:5,b:0}`, 2 seats). -/
+theorem prefix_qd_house_witness :
+    QDPre.quotaDistribute ⟨Gen.Quota.imperiali, true, .ignore, true⟩ [(0, 90), (1, 10), (2, 10)] 3 [] [] =
         .ok [(.cand 0, 0), (.cand 1, 3), (.cand 2, 3)] ∧
-      wholeSel (Gen.Quota.imperiali 110 3) true [] [(0, 90), (1, 10), (2, 10)] = [(.cand 0, 4)] := by
+    quotaDistribute ⟨Gen.Quota.imperiali, true, .ignore⟩ [(0, 90), (1, 10), (2, 10)] 3 [] [] = .ok [(.cand 0, 4)] ∧
+    QDPre.quotaDistribute ⟨Gen.Quota.imperiali, true, .subtract, true⟩ [(0, 5), (1, 0)] 2 [] [] =
+        .error QDPre.zeroDiv ∧
+    QDPre.largestRemainder ⟨Gen.Quota.imperiali, true, .subtract, true⟩ [(0, 5), (1, 0)] 2 [] [] =
+        .error QDPre.zeroDiv ∧
+    quotaDistribute ⟨Gen.Quota.imperiali, true, .subtract⟩ [(0, 5), (1, 0)] 2 [] [] = .ok [(.cand 0, 2)] := by
+  refine ⟨?_, ?_, ?_, ?_, ?_⟩ <;> decide +kernel
+
+/-- **24bad1e^, finding C02-e.**  Policy `'error'` with a `quota.constant` instance (no `__name__`) raised
+    `AttributeError`, not `VotingSystemError`. -/
+theorem prefix_qd_policy_error_unnamed_witness :
+    QDPre.quotaDistribute ⟨fun _ _ => 30, true, .error, false⟩ [(0, 60), (1, 40)] 2 [] [] = .error QDPre.attrErr ∧
+    quotaDistribute ⟨fun _ _ => 30, true, .error⟩ [(0, 60), (1, 40)] 2 [] [] = .error .votingSystemError := by
   constructor <;> decide +kernel
-
-/-- … and policy `'subtract'` dies with `ZeroDivisionError` in the recursive call (`{a:5,b:0}`, 2 seats). -/
-theorem qd_house_zero_division_witness :
-    quotaDistribute ⟨Gen.Quota.imperiali, true, .subtract, true⟩ [(0, 5), (1, 0)] 2 [] [] = .error zeroDiv ∧
-    largestRemainder ⟨Gen.Quota.imperiali, true, .subtract, true⟩ [(0, 5), (1, 0)] 2 [] [] = .error zeroDiv := by
-  constructor <;> decide +kernel
-
-/-- **Witness (finding C02-e).**  Policy `'error'` with a `quota.constant` instance (no `__name__`) raises
-    `AttributeError`, not `VotingSystemError`: `QuotaDistributor(constant(30), on_overaward='error')` on
-    `{A:60,B:40}`, 2 seats. -/
-theorem qd_policy_error_unnamed_witness :
-    quotaDistribute ⟨fun _ _ => 30, true, .error, false⟩ [(0, 60), (1, 40)] 2 [] [] = .error attrErr := by
-  decide +kernel
-
-/-! ## 6. the model's recursion fuel -/
-
-/-- the overshoot recursion drops at least one party per call, so the fuel `len(votes)` given by
-    `quotaDistribute` is never exhausted: the model never answers `Model:Fuel`, for any input whatsoever -/
-theorem qd_fuel_suffices (cfg : Cfg) (votes : Votes) (n : Nat) (prev maxS : IMap) :
-    quotaDistribute cfg votes n prev maxS ≠ .error fuelErr :=
-  qdEval_no_fuel cfg _ votes n prev maxS (le_refl _)
-
-theorem lr_fuel_suffices (cfg : Cfg) (votes : Votes) (n : Nat) (prev maxS : IMap) :
-    largestRemainder cfg votes n prev maxS ≠ .error fuelErr := by
-  unfold largestRemainder
-  split
-  · rename_i e he
-    intro h; injection h with h
-    rw [h] at he
-    exact qd_fuel_suffices cfg votes n prev [] he
-  · simp only
-    split
-    · intro h; injection h with h; exact fuelErr_ne.1 h.symm
-    · simp
 
 /-! ## non-vacuity: concrete inputs meeting the hypotheses -/
 
--- Droop, {A:47, B:16, C:37}, 10 seats: whole quotas 5,1,4 (q = 10), no remainder seat left
-example : Plain ⟨Gen.Quota.droop, true, .error, true⟩ [(0, 47), (1, 16), (2, 37)] 10 [] :=
-  ⟨by decide +kernel, by decide +kernel, by decide +kernel, by decide +kernel⟩
--- Hare with previous gains and a cap that matters only for the remainder seat
-example : Plain ⟨Gen.Quota.hare, true, .error, true⟩ [(0, 55), (1, 35), (2, 10)] 10 [(1, 1)] :=
-  ⟨by decide +kernel, by decide +kernel, by decide +kernel, by decide +kernel⟩
-example : largestRemainder ⟨Gen.Quota.hare, true, .error, true⟩ [(0, 55), (1, 35), (2, 10)] 10 [(1, 1)] [(0, 5)] =
+-- Droop, {A:47, B:16, C:37}, 10 seats: whole quotas 4,1,3 (q = 10)
+example : Plain ⟨Gen.Quota.droop, true, .error⟩ [(0, 47), (1, 16), (2, 37)] 10 [] [] :=
+  ⟨by decide +kernel, by decide +kernel, by decide +kernel⟩
+-- Hare with previous gains and a cap that BINDS on the whole quotas (A: 6 quotas, cap 4)
+example : Plain ⟨Gen.Quota.hare, true, .error⟩ [(0, 60), (1, 30), (2, 10)] 10 [(1, 1)] [(0, 4)] :=
+  ⟨by decide +kernel, by decide +kernel, by decide +kernel⟩
+example : largestRemainder ⟨Gen.Quota.hare, true, .error⟩ [(0, 60), (1, 30), (2, 10)] 10 [(1, 1)] [(0, 4)] =
+    .ok [(.cand 0, 4), (.cand 1, 3), (.cand 2, 2)] := by decide +kernel
+-- a cap that matters only for the remainder seat
+example : largestRemainder ⟨Gen.Quota.hare, true, .error⟩ [(0, 55), (1, 35), (2, 10)] 10 [(1, 1)] [(0, 5)] =
     .ok [(.cand 0, 5), (.cand 1, 3), (.cand 2, 1)] := by decide +kernel
+-- fewer eligible parties than open seats (lr_short): cap A:1 frees five seats, two parties can take one each
+example : largestRemainder ⟨Gen.Quota.hare, true, .error⟩ [(0, 60), (1, 30), (2, 10)] 10 [] [(0, 1)] =
+    .ok [(.cand 0, 1), (.cand 1, 4), (.cand 2, 2)] := by decide +kernel
 -- a tie at the cut: three equal parties, four seats
-example : largestRemainder ⟨Gen.Quota.hare, true, .error, true⟩ [(0, 10), (1, 10), (2, 10)] 4 [] [] =
+example : largestRemainder ⟨Gen.Quota.hare, true, .error⟩ [(0, 10), (1, 10), (2, 10)] 4 [] [] =
     .ok [(.cand 0, 1), (.cand 1, 1), (.cand 2, 1), (.tie [0, 1, 2], 1)] := by decide +kernel
--- over-award inside the house (Imperiali, {A:50,B:30,C:20}... q = 100/6): NoCapBinds holds, total 5 > 4
-example : NoCapBinds (Gen.Quota.imperiali 100 4) true 4 [] [] [(0, 50), (1, 30), (2, 20)] ∧
-    (4 : Int) < totalAwarded (Gen.Quota.imperiali 100 4) true [] [(0, 50), (1, 30), (2, 20)] := by
-  constructor <;> decide +kernel
-example : quotaDistribute ⟨Gen.Quota.imperiali, true, .subtract, true⟩ [(0, 50), (1, 30), (2, 20)] 4 [] [] =
+-- over-award (Imperiali, {A:50,B:30,C:20}, q = 100/6): total 5 > 4
+example : (4 : Int) < totalAwarded (Gen.Quota.imperiali 100 4) true [] [] [(0, 50), (1, 30), (2, 20)] := by
+  decide +kernel
+example : quotaDistribute ⟨Gen.Quota.imperiali, true, .subtract⟩ [(0, 50), (1, 30), (2, 20)] 4 [] [] =
     .ok [(.cand 0, 2), (.cand 1, 1), (.cand 2, 1)] := by decide +kernel
+-- over-award by a single party beyond the house: the policy applies (finding d, repaired)
+example : quotaDistribute ⟨Gen.Quota.imperiali, true, .subtract⟩ [(0, 90), (1, 10), (2, 10)] 3 [] [] =
+    .ok [(.cand 0, 3)] := by decide +kernel
 -- subtract with a tie for the smallest margin
-example : quotaDistribute ⟨Gen.Quota.imperiali, true, .subtract, true⟩ [(0, 50), (1, 50), (2, 50)] 4 [] [] =
+example : quotaDistribute ⟨Gen.Quota.imperiali, true, .subtract⟩ [(0, 50), (1, 50), (2, 50)] 4 [] [] =
     .ok [(.cand 0, 1), (.cand 1, 1), (.cand 2, 1), (.tie [0, 1, 2], 1)] := by decide +kernel
 -- the accept_equal edge: a party exactly on the Hare quota
 example : wholeQ (Gen.Quota.hare 60 6) false 10 = 0 ∧ wholeQ (Gen.Quota.hare 60 6) true 10 = 1 := by
   constructor <;> decide +kernel
-example : largestRemainder ⟨Gen.Quota.hare, false, .error, true⟩ [(0, 10), (1, 20), (2, 30)] 6 [] [] =
+example : largestRemainder ⟨Gen.Quota.hare, false, .error⟩ [(0, 10), (1, 20), (2, 30)] 6 [] [] =
     .ok [(.cand 1, 2), (.cand 2, 3), (.cand 0, 1)] := by decide +kernel
 
 end VL.C02
